@@ -323,6 +323,53 @@ Theorem C16_exchange2_example :
   rt_quota (s_rt (w_sess ex_q2c)) = rt_quota (s_rt (w_sess ex_b1)).
 Proof. exact exchange2_example. Qed.
 
+From Minimq Require Import Exchange3.
+
+(* ---- and SUBSCRIBE / UNSUBSCRIBE: the request on the wire, the broker's SUBACK / UNSUBACK, the handle completed by one poll() ---- *)
+Theorem C16_subscribe_exchange_completes : forall w topics ps s2 op,
+  Hc w ->
+  ob_ctl (s_ob (w_sess w)) = [] -> ob_rel (s_ob (w_sess w)) = [] -> ob_ret (s_ob (w_sess w)) = [] ->
+  rt_ka_ms (s_rt (w_sess w)) = 0 -> rt_next_ping (s_rt (w_sess w)) = None -> rt_ping_timeout (s_rt (w_sess w)) = None ->
+  w_broker w = 1 -> w_txbuf w = [] -> w_inq w = [] -> w_last_arrival w <= w_now w ->
+  rdata (rd w) = [] -> rplen (rd w) = None -> 6 <= rcap (rd w) ->
+  topics <> [] -> props_valid_for (PSlice ps) CtxSubscribe = true ->
+  subscribe_middle (w_sess w) topics ps = (s2, MRetained op) -> op_pid op < 65536 ->
+  exists w1 w2 bs cap off,
+    op_subscribe FUEL topics ps w = (w1, ODone (Some op)) /\
+    enc_subscribe cap {| sq_pid := op_pid op; sq_props := ps; sq_topics := topics |} = SOk off bs /\ w_wire w1 = w_wire w ++ bs /\
+    w_inq w1 = [(w_now w, 144 :: [4] ++ u16_be (op_pid op) ++ [0; 0])] /\
+    op_poll FUEL w1 = (w2, ODone None) /\ w_live w2 = true /\ w_inq w2 = [] /\
+    ob_ctl (s_ob (w_sess w2)) = [] /\ ob_rel (s_ob (w_sess w2)) = [] /\ ob_ret (s_ob (w_sess w2)) = [] /\
+    next_step (s_ob (w_sess w2)) = None.
+Proof. exact subscribe_exchange_completes. Qed.
+
+Theorem C16_unsubscribe_exchange_completes : forall w topics ps s2 op,
+  Hc w ->
+  ob_ctl (s_ob (w_sess w)) = [] -> ob_rel (s_ob (w_sess w)) = [] -> ob_ret (s_ob (w_sess w)) = [] ->
+  rt_ka_ms (s_rt (w_sess w)) = 0 -> rt_next_ping (s_rt (w_sess w)) = None -> rt_ping_timeout (s_rt (w_sess w)) = None ->
+  w_broker w = 1 -> w_txbuf w = [] -> w_inq w = [] -> w_last_arrival w <= w_now w ->
+  rdata (rd w) = [] -> rplen (rd w) = None -> 6 <= rcap (rd w) ->
+  topics <> [] -> props_valid_for (PSlice ps) CtxUnsubscribe = true ->
+  unsubscribe_middle (w_sess w) topics ps = (s2, MRetained op) -> op_pid op < 65536 ->
+  exists w1 w2 bs cap off,
+    op_unsubscribe FUEL topics ps w = (w1, ODone (Some op)) /\
+    enc_unsubscribe cap {| uq_pid := op_pid op; uq_props := ps; uq_topics := topics |} = SOk off bs /\ w_wire w1 = w_wire w ++ bs /\
+    w_inq w1 = [(w_now w, 176 :: [4] ++ u16_be (op_pid op) ++ [0; 0])] /\
+    op_poll FUEL w1 = (w2, ODone None) /\ w_live w2 = true /\ w_inq w2 = [] /\
+    ob_ctl (s_ob (w_sess w2)) = [] /\ ob_rel (s_ob (w_sess w2)) = [] /\ ob_ret (s_ob (w_sess w2)) = [] /\
+    next_step (s_ob (w_sess w2)) = None.
+Proof. exact unsubscribe_exchange_completes. Qed.
+
+Theorem C16_exchange3_example :
+  snd (subscribe_middle (w_sess ex_b1) [(ex_filter, ex_so1)] []) = MRetained {| op_kind := 2; op_pid := 1; op_gen := 1 |} /\
+  snd (op_subscribe FUEL [(ex_filter, ex_so1)] [] ex_b1) = ODone (Some {| op_kind := 2; op_pid := 1; op_gen := 1 |}) /\
+  w_wire ex_sub_a = w_wire ex_b1 ++ [130; 9; 0; 1; 0; 0; 3; 102; 47; 97; 1] /\ w_inq ex_sub_a = [(0, [144; 4; 0; 1; 0; 0])] /\
+  snd (op_poll FUEL ex_sub_a) = ODone None /\ ob_ret (s_ob (w_sess (fst (op_poll FUEL ex_sub_a)))) = [] /\
+  snd (op_unsubscribe FUEL [ex_filter] [] ex_b1) = ODone (Some {| op_kind := 3; op_pid := 1; op_gen := 1 |}) /\
+  w_wire ex_unsub_a = w_wire ex_b1 ++ [162; 8; 0; 1; 0; 0; 3; 102; 47; 97] /\ w_inq ex_unsub_a = [(0, [176; 4; 0; 1; 0; 0])] /\
+  snd (op_poll FUEL ex_unsub_a) = ODone None /\ ob_ret (s_ob (w_sess (fst (op_poll FUEL ex_unsub_a)))) = [].
+Proof. exact exchange3_example. Qed.
+
 Print Assumptions C16_poll_never_returns_idle.
 Print Assumptions C16_sent_entries_not_resent.
 Print Assumptions C16_write_step_advances.
@@ -357,3 +404,6 @@ Print Assumptions C16_exchange_hyps_met.
 Print Assumptions C16_poll_pubrec_sends_pubrel.
 Print Assumptions C16_qos2_exchange_completes.
 Print Assumptions C16_exchange2_example.
+Print Assumptions C16_subscribe_exchange_completes.
+Print Assumptions C16_unsubscribe_exchange_completes.
+Print Assumptions C16_exchange3_example.
